@@ -325,65 +325,65 @@ harnesses! {
     fn c09_t_rev_amino_k8 [34] { rev::<Amino, 8>(); }
     fn c09_t_rev_amino_k9 [34] { rev::<Amino, 9>(); }
     // rotate / push (bit-slice round trip: integer -> BitArray -> rotate/store -> integer)
-    fn c09_q_rotl_dna_k5_n0 [6] { rotl_body!(kmer, usize, Dna, 5, 0) }
-    fn c09_q_rotr_dna_k5_n0 [6] { rotr_body!(kmer, usize, Dna, 5, 0) }
-    fn c09_q_rotl_dna_k5_n1 [6] { rotl_body!(kmer, usize, Dna, 5, 1) }
-    fn c09_q_rotr_dna_k5_n1 [6] { rotr_body!(kmer, usize, Dna, 5, 1) }
-    fn c09_q_rotl_dna_k5_n4 [6] { rotl_body!(kmer, usize, Dna, 5, 4) }
-    fn c09_q_rotr_dna_k5_n4 [6] { rotr_body!(kmer, usize, Dna, 5, 4) }
-    fn c09_q_rotl_dna_k5_n5 [6] { rotl_body!(kmer, usize, Dna, 5, 5) }
-    fn c09_q_rotr_dna_k5_n5 [6] { rotr_body!(kmer, usize, Dna, 5, 5) }
-    fn c09_q_rotl_dna_k5_n6 [6] { rotl_body!(kmer, usize, Dna, 5, 6) }
-    fn c09_q_rotr_dna_k5_n6 [6] { rotr_body!(kmer, usize, Dna, 5, 6) }
-    fn c09_q_rotl_dna_k5_n10 [6] { rotl_body!(kmer, usize, Dna, 5, 10) }
-    fn c09_q_rotr_dna_k5_n10 [6] { rotr_body!(kmer, usize, Dna, 5, 10) }
-    fn c09_q_rotl_dna_k5_n65537 [6] { rotl_body!(kmer, usize, Dna, 5, 65537) }
-    fn c09_q_rotr_dna_k5_n65537 [6] { rotr_body!(kmer, usize, Dna, 5, 65537) }
-    fn c09_q_rotl_dna_k5_nmax [6] { rotl_body!(kmer, usize, Dna, 5, u32::MAX) }
-    fn c09_q_rotr_dna_k5_nmax [6] { rotr_body!(kmer, usize, Dna, 5, u32::MAX) }
-    fn c09_q_pushl_dna_k5 [6] { pushl_body!(kmer, usize, Dna, 5) }
-    fn c09_q_pushr_dna_k5 [6] { pushr_body!(kmer, usize, Dna, 5) }
-    fn c09_q_rotl_dna_k32_n1 [6] { rotl_body!(kmer, usize, Dna, 32, 1) }
-    fn c09_q_rotr_dna_k32_n33 [6] { rotr_body!(kmer, usize, Dna, 32, 33) }
-    fn c09_q_pushl_dna_k32 [6] { pushl_body!(kmer, usize, Dna, 32) }
-    fn c09_q_pushr_dna_k32 [6] { pushr_body!(kmer, usize, Dna, 32) }
-    fn c09_q_pushr_dna64_k32 [6] { pushr_body!(kmer64, u64, Dna, 32) }
-    fn c09_q_rotl_dna128_k33_n1 [6] { rotl_body!(kmer128, u128, Dna, 33, 1) }
-    fn c09_q_pushl_dna128_k33 [6] { pushl_body!(kmer128, u128, Dna, 33) }
-    fn c09_q_pushr_dna128_k64 [6] { pushr_body!(kmer128, u128, Dna, 64) }
-    fn c09_q_rotr_iupac_k16_n1 [6] { rotr_body!(kmer, usize, Iupac, 16, 1) }
-    fn c09_q_pushr_iupac_k16 [6] { pushr_body!(kmer, usize, Iupac, 16) }
-    fn c09_q_rotl_amino_k10_n9 [6] { rotl_body!(kmer, usize, Amino, 10, 9) }
-    fn c09_q_pushl_amino_k10 [6] { pushl_body!(kmer, usize, Amino, 10) }
-    fn c09_t_rotl_dna_k32_n0 [6] { rotl_body!(kmer, usize, Dna, 32, 0) }
-    fn c09_t_rotl_dna_k32_n31 [6] { rotl_body!(kmer, usize, Dna, 32, 31) }
-    fn c09_t_rotl_dna_k32_n32 [6] { rotl_body!(kmer, usize, Dna, 32, 32) }
-    fn c09_t_rotl_dna_k32_n64 [6] { rotl_body!(kmer, usize, Dna, 32, 64) }
-    fn c09_t_rotl_dna_k32_nmax [6] { rotl_body!(kmer, usize, Dna, 32, u32::MAX) }
-    fn c09_t_rotr_dna_k32_n1 [6] { rotr_body!(kmer, usize, Dna, 32, 1) }
-    fn c09_t_rotr_dna_k32_n31 [6] { rotr_body!(kmer, usize, Dna, 32, 31) }
-    fn c09_t_rotl_dna64_k32_n1 [6] { rotl_body!(kmer64, u64, Dna, 32, 1) }
-    fn c09_t_rotr_dna64_k32_n31 [6] { rotr_body!(kmer64, u64, Dna, 32, 31) }
-    fn c09_t_pushl_dna64_k32 [6] { pushl_body!(kmer64, u64, Dna, 32) }
-    fn c09_t_rotr_dna128_k33_n1 [6] { rotr_body!(kmer128, u128, Dna, 33, 1) }
-    fn c09_t_rotl_dna128_k64_n63 [6] { rotl_body!(kmer128, u128, Dna, 64, 63) }
-    fn c09_t_rotr_dna128_k64_n1 [6] { rotr_body!(kmer128, u128, Dna, 64, 1) }
-    fn c09_t_pushr_dna128_k33 [6] { pushr_body!(kmer128, u128, Dna, 33) }
-    fn c09_t_pushl_dna128_k64 [6] { pushl_body!(kmer128, u128, Dna, 64) }
-    fn c09_t_rotl_iupac_k16_n15 [6] { rotl_body!(kmer, usize, Iupac, 16, 15) }
-    fn c09_t_pushl_iupac_k16 [6] { pushl_body!(kmer, usize, Iupac, 16) }
-    fn c09_t_rotl_iupac128_k32_n1 [6] { rotl_body!(kmer128, u128, Iupac, 32, 1) }
-    fn c09_t_pushr_iupac128_k32 [6] { pushr_body!(kmer128, u128, Iupac, 32) }
-    fn c09_t_rotr_amino_k10_n1 [6] { rotr_body!(kmer, usize, Amino, 10, 1) }
-    fn c09_t_pushr_amino_k10 [6] { pushr_body!(kmer, usize, Amino, 10) }
-    fn c09_t_rotl_amino128_k21_n1 [6] { rotl_body!(kmer128, u128, Amino, 21, 1) }
-    fn c09_t_pushr_amino128_k21 [6] { pushr_body!(kmer128, u128, Amino, 21) }
-    fn c09_t_rotl_text_k8_n1 [6] { rotl_body!(kmer, usize, text::Dna, 8, 1) }
-    fn c09_t_pushr_text_k8 [6] { pushr_body!(kmer, usize, text::Dna, 8) }
-    fn c09_t_rotl_miupac_k12_n1 [6] { rotl_body!(kmer, usize, masked::Iupac, 12, 1) }
-    fn c09_t_pushl_miupac_k12 [6] { pushl_body!(kmer, usize, masked::Iupac, 12) }
-    fn c09_t_rotl_dna_k1_n1 [6] { rotl_body!(kmer, usize, Dna, 1, 1) }
-    fn c09_t_pushr_dna_k1 [6] { pushr_body!(kmer, usize, Dna, 1) }
-    fn c09_t_rotl_dna_k31_n1 [6] { rotl_body!(kmer, usize, Dna, 31, 1) }
-    fn c09_t_pushr_dna_k31 [6] { pushr_body!(kmer, usize, Dna, 31) }
+    fn c09_q_rotl_dna_k5_n0 [10] { rotl_body!(kmer, usize, Dna, 5, 0) }
+    fn c09_q_rotr_dna_k5_n0 [10] { rotr_body!(kmer, usize, Dna, 5, 0) }
+    fn c09_q_rotl_dna_k5_n1 [10] { rotl_body!(kmer, usize, Dna, 5, 1) }
+    fn c09_q_rotr_dna_k5_n1 [10] { rotr_body!(kmer, usize, Dna, 5, 1) }
+    fn c09_q_rotl_dna_k5_n4 [10] { rotl_body!(kmer, usize, Dna, 5, 4) }
+    fn c09_q_rotr_dna_k5_n4 [10] { rotr_body!(kmer, usize, Dna, 5, 4) }
+    fn c09_q_rotl_dna_k5_n5 [10] { rotl_body!(kmer, usize, Dna, 5, 5) }
+    fn c09_q_rotr_dna_k5_n5 [10] { rotr_body!(kmer, usize, Dna, 5, 5) }
+    fn c09_q_rotl_dna_k5_n6 [10] { rotl_body!(kmer, usize, Dna, 5, 6) }
+    fn c09_q_rotr_dna_k5_n6 [10] { rotr_body!(kmer, usize, Dna, 5, 6) }
+    fn c09_q_rotl_dna_k5_n10 [10] { rotl_body!(kmer, usize, Dna, 5, 10) }
+    fn c09_q_rotr_dna_k5_n10 [10] { rotr_body!(kmer, usize, Dna, 5, 10) }
+    fn c09_q_rotl_dna_k5_n65537 [10] { rotl_body!(kmer, usize, Dna, 5, 65537) }
+    fn c09_q_rotr_dna_k5_n65537 [10] { rotr_body!(kmer, usize, Dna, 5, 65537) }
+    fn c09_q_rotl_dna_k5_nmax [10] { rotl_body!(kmer, usize, Dna, 5, u32::MAX) }
+    fn c09_q_rotr_dna_k5_nmax [10] { rotr_body!(kmer, usize, Dna, 5, u32::MAX) }
+    fn c09_q_pushl_dna_k5 [10] { pushl_body!(kmer, usize, Dna, 5) }
+    fn c09_q_pushr_dna_k5 [10] { pushr_body!(kmer, usize, Dna, 5) }
+    fn c09_q_rotl_dna_k32_n1 [10] { rotl_body!(kmer, usize, Dna, 32, 1) }
+    fn c09_q_rotr_dna_k32_n33 [10] { rotr_body!(kmer, usize, Dna, 32, 33) }
+    fn c09_q_pushl_dna_k32 [10] { pushl_body!(kmer, usize, Dna, 32) }
+    fn c09_q_pushr_dna_k32 [10] { pushr_body!(kmer, usize, Dna, 32) }
+    fn c09_q_pushr_dna64_k32 [10] { pushr_body!(kmer64, u64, Dna, 32) }
+    fn c09_q_rotl_dna128_k33_n1 [10] { rotl_body!(kmer128, u128, Dna, 33, 1) }
+    fn c09_q_pushl_dna128_k33 [10] { pushl_body!(kmer128, u128, Dna, 33) }
+    fn c09_q_pushr_dna128_k64 [10] { pushr_body!(kmer128, u128, Dna, 64) }
+    fn c09_q_rotr_iupac_k16_n1 [10] { rotr_body!(kmer, usize, Iupac, 16, 1) }
+    fn c09_q_pushr_iupac_k16 [10] { pushr_body!(kmer, usize, Iupac, 16) }
+    fn c09_q_rotl_amino_k10_n9 [10] { rotl_body!(kmer, usize, Amino, 10, 9) }
+    fn c09_q_pushl_amino_k10 [10] { pushl_body!(kmer, usize, Amino, 10) }
+    fn c09_t_rotl_dna_k32_n0 [10] { rotl_body!(kmer, usize, Dna, 32, 0) }
+    fn c09_t_rotl_dna_k32_n31 [10] { rotl_body!(kmer, usize, Dna, 32, 31) }
+    fn c09_t_rotl_dna_k32_n32 [10] { rotl_body!(kmer, usize, Dna, 32, 32) }
+    fn c09_t_rotl_dna_k32_n64 [10] { rotl_body!(kmer, usize, Dna, 32, 64) }
+    fn c09_t_rotl_dna_k32_nmax [10] { rotl_body!(kmer, usize, Dna, 32, u32::MAX) }
+    fn c09_t_rotr_dna_k32_n1 [10] { rotr_body!(kmer, usize, Dna, 32, 1) }
+    fn c09_t_rotr_dna_k32_n31 [10] { rotr_body!(kmer, usize, Dna, 32, 31) }
+    fn c09_t_rotl_dna64_k32_n1 [10] { rotl_body!(kmer64, u64, Dna, 32, 1) }
+    fn c09_t_rotr_dna64_k32_n31 [10] { rotr_body!(kmer64, u64, Dna, 32, 31) }
+    fn c09_t_pushl_dna64_k32 [10] { pushl_body!(kmer64, u64, Dna, 32) }
+    fn c09_t_rotr_dna128_k33_n1 [10] { rotr_body!(kmer128, u128, Dna, 33, 1) }
+    fn c09_t_rotl_dna128_k64_n63 [10] { rotl_body!(kmer128, u128, Dna, 64, 63) }
+    fn c09_t_rotr_dna128_k64_n1 [10] { rotr_body!(kmer128, u128, Dna, 64, 1) }
+    fn c09_t_pushr_dna128_k33 [10] { pushr_body!(kmer128, u128, Dna, 33) }
+    fn c09_t_pushl_dna128_k64 [10] { pushl_body!(kmer128, u128, Dna, 64) }
+    fn c09_t_rotl_iupac_k16_n15 [10] { rotl_body!(kmer, usize, Iupac, 16, 15) }
+    fn c09_t_pushl_iupac_k16 [10] { pushl_body!(kmer, usize, Iupac, 16) }
+    fn c09_t_rotl_iupac128_k32_n1 [10] { rotl_body!(kmer128, u128, Iupac, 32, 1) }
+    fn c09_t_pushr_iupac128_k32 [10] { pushr_body!(kmer128, u128, Iupac, 32) }
+    fn c09_t_rotr_amino_k10_n1 [10] { rotr_body!(kmer, usize, Amino, 10, 1) }
+    fn c09_t_pushr_amino_k10 [10] { pushr_body!(kmer, usize, Amino, 10) }
+    fn c09_t_rotl_amino128_k21_n1 [10] { rotl_body!(kmer128, u128, Amino, 21, 1) }
+    fn c09_t_pushr_amino128_k21 [10] { pushr_body!(kmer128, u128, Amino, 21) }
+    fn c09_t_rotl_text_k8_n1 [10] { rotl_body!(kmer, usize, text::Dna, 8, 1) }
+    fn c09_t_pushr_text_k8 [10] { pushr_body!(kmer, usize, text::Dna, 8) }
+    fn c09_t_rotl_miupac_k12_n1 [10] { rotl_body!(kmer, usize, masked::Iupac, 12, 1) }
+    fn c09_t_pushl_miupac_k12 [10] { pushl_body!(kmer, usize, masked::Iupac, 12) }
+    fn c09_t_rotl_dna_k1_n1 [10] { rotl_body!(kmer, usize, Dna, 1, 1) }
+    fn c09_t_pushr_dna_k1 [10] { pushr_body!(kmer, usize, Dna, 1) }
+    fn c09_t_rotl_dna_k31_n1 [10] { rotl_body!(kmer, usize, Dna, 31, 1) }
+    fn c09_t_pushr_dna_k31 [10] { pushr_body!(kmer, usize, Dna, 31) }
 }
